@@ -7,7 +7,9 @@ The tokens that decide C02 are translated from the *source text* (ast) into Gall
   * hier.py     _doc_to_object                         `mo > 1`, the null-document result, the wrapper arity tests
   * hier.py     _from_dict_value                       a null complex member is None (`if inst is None: retval = None`)
   * hier.py     deserialize                            the body lookup tries the str form of a bytes class name
-  * _base.py    _check_freq_dict                       `val < min_o`, `val > max_o`
+  * hier.py     _from_dict_value                       text that arrives as a byte string is decoded first
+  * _base.py    _check_freq_dict                       `val < min_o`, `val > max_o`, the `flat and ...` array clause
+  * json.py, yaml.py, msgpack.py  _ret_number / _ret_bool / integer_from_bytes   the leaf readers' clauses
 and the leaf handler each protocol instance actually dispatches to is read from the imported
 classes (whatever the working tree computes).  Every shape that is not recognised exactly
 raises TranslateError (fail closed)."""
@@ -110,22 +112,93 @@ def tr_mp_integer_to_bytes(tree):
     return 'Definition mp_native_int (value : Z) : bool :=\n  %s.\n' % t
 
 
+def body_dumps(fn):
+    return [ast.dump(x) for x in strip_doc(fn.body)]
+
+
+def tmpl(src):
+    return [ast.dump(x) for x in ast.parse(src).body]
+
+
 def tr_mp_integer_from_bytes(tree):
     fn = find_function(tree, ['MessagePackDocument', 'integer_from_bytes'])
-    body = strip_doc(fn.body)
-    ok = (len(body) == 2 and isinstance(body[0], ast.If) and isinstance(body[1], ast.Return)
-          and isinstance(body[1].value, ast.Name) and body[1].value.id == 'value')
-    if ok:
-        t = body[0].test
-        ok = (isinstance(t, ast.Call) and isinstance(t.func, ast.Name) and t.func.id == 'isinstance'
-              and isinstance(t.args[1], ast.Tuple)
-              and sorted(attr_chain(e)[-1] for e in t.args[1].elts) == ['binary_type', 'text_type']
-              and len(body[0].body) == 1 and isinstance(body[0].body[0], ast.Return)
-              and 'integer_from_bytes' in ast.dump(body[0].body[0]) and not body[0].orelse)
-    if not ok:
+    if [a.arg for a in fn.args.args] != ['self', 'cls', 'value']:
+        raise TranslateError('MessagePackDocument.integer_from_bytes: unexpected signature')
+    want = tmpl('if isinstance(value, (six.text_type, six.binary_type)):\n'
+                '    return super(MessagePackDocument, self).integer_from_bytes(cls, value)\n'
+                'if isinstance(value, NON_NUMBER_TYPES):\n'
+                '    raise ValidationError(value)\n'
+                'if isinstance(value, float):\n'
+                '    if not value.is_integer():\n'
+                '        raise ValidationError(value)\n'
+                '    return int(value)\n'
+                'return value\n')
+    if body_dumps(fn) != want:
         raise TranslateError('MessagePackDocument.integer_from_bytes: unrecognised shape')
-    return '(* msgpack.py integer_from_bytes: text (str, bytes) goes to the inherited reader, anything else is returned *)\n' \
-           'Definition mp_int_reader_text_only : bool := true.\n'
+    return ('(* msgpack.py integer_from_bytes: text goes to the inherited reader, a list or a map is refused,\n'
+            '   a float is handed over as the int it equals or refused, anything else is returned *)\n'
+            'Definition mp_int_reader_strict : bool := true.\n')
+
+
+def non_number_types(tree, where):
+    for n in tree.body:
+        if isinstance(n, ast.Assign) and len(n.targets) == 1 and isinstance(n.targets[0], ast.Name) \
+                and n.targets[0].id == 'NON_NUMBER_TYPES':
+            if ast.dump(n.value) != ast.dump(ast.parse('tuple({list, dict, six.text_type, six.binary_type})',
+                                                       mode='eval').body):
+                raise TranslateError('%s: NON_NUMBER_TYPES is not (list, dict, str, bytes)' % where)
+            return True
+    return False
+
+
+RET_NUMBER_OLD = ('if isinstance(value, NON_NUMBER_TYPES):\n    raise ValidationError(value)\n'
+                  'if value in (True, False):\n    return int(value)\n'
+                  'return value\n')
+RET_NUMBER_NEW = ('if isinstance(value, NON_NUMBER_TYPES):\n    raise ValidationError(value)\n'
+                  'if value in (True, False):\n    return int(value)\n'
+                  'if isinstance(value, float) and issubclass(cls, Integer):\n'
+                  '    if not value.is_integer():\n        raise ValidationError(value)\n'
+                  '    return int(value)\n'
+                  'return value\n')
+RET_BOOL_OLD = 'if value is None or value in (True, False):\n    return value\nraise ValidationError(value)\n'
+RET_BOOL_NEW = 'if value is None or value is True or value is False:\n    return value\nraise ValidationError(value)\n'
+
+
+def tr_leaf_readers(trees):
+    """trees: {'json': (cls name, tree), ...}"""
+    ints, bools = set(), set()
+    for mod, (cname, tree) in sorted(trees.items()):
+        rn = find_function(tree, [cname, '_ret_number'])
+        rb = find_function(tree, [cname, '_ret_bool'])
+        for fn in (rn, rb):
+            if len(fn.args.args) != 3 or fn.args.args[2].arg != 'value':
+                raise TranslateError('%s.%s: unexpected signature' % (cname, fn.name))
+        second = rn.args.args[1].arg
+        got = body_dumps(rn)
+        if got == tmpl(RET_NUMBER_OLD):
+            v = False
+        elif got == tmpl(RET_NUMBER_NEW) and second == 'cls':
+            v = True
+        else:
+            raise TranslateError('%s._ret_number: unrecognised shape' % cname)
+        if mod == 'msgpack':
+            if v:
+                raise TranslateError('MessagePackDocument._ret_number has an Integer clause (it only reads Double)')
+        else:
+            ints.add(v)
+        got = body_dumps(rb)
+        if got == tmpl(RET_BOOL_NEW):
+            bools.add(True)
+        elif got == tmpl(RET_BOOL_OLD):
+            bools.add(False)
+        else:
+            raise TranslateError('%s._ret_bool: unrecognised shape' % cname)
+    if len(ints) != 1 or len(bools) != 1:
+        raise TranslateError('the json / yaml / msgpack leaf readers no longer agree with one another')
+    return ('(* json.py, yaml.py _ret_number: a float in an Integer slot is the int it equals, or refused *)\n'
+            'Definition int_slot_float_is_int : bool := %s.\n'
+            '(* json.py, yaml.py, msgpack.py _ret_bool: `value is True or value is False` *)\n'
+            'Definition ret_bool_by_identity : bool := %s.\n' % (TRUE if ints.pop() else FALSE, TRUE if bools.pop() else FALSE))
 
 
 # ---------------------------------------------------------------- hier.py
@@ -240,27 +313,91 @@ def tr_from_dict_value(tree):
         v = FALSE
     else:
         raise TranslateError('_from_dict_value: unrecognised complex branch')
-    return '(* a null complex / array member is read as None (not handed to _doc_to_object) *)\n' \
-           'Definition null_member_is_none : bool := %s.\n' % v
+    dec = [n for n in ast.walk(fn) if isinstance(n, ast.Try) and 'UnicodeError' in ast.dump(n)]
+    want = ast.parse("try:\n"
+                     "    if issubclass(cls, Unicode):\n"
+                     "        inst = self.unicode_from_bytes(cls, inst)\n"
+                     "    else:\n"
+                     "        inst = inst.decode(self.string_encoding or 'utf8')\n"
+                     "except UnicodeError:\n"
+                     "    raise ValidationError([key, inst])\n").body[0]
+    if len(dec) != 1 or ast.dump(dec[0]) != ast.dump(want):
+        raise TranslateError('_from_dict_value: byte strings are not decoded the way they were')
+    guard = [n for n in ast.walk(fn) if isinstance(n, ast.If) and any(x is dec[0] for x in n.body)]
+    gwant = ast.parse("isinstance(inst, six.binary_type) and not issubclass(cls, (ByteArray, File)) "
+                      "and getattr(cls_attrs, 'serialize_as', None) not in ('bytes', 'bytes_le')", mode='eval').body
+    if len(guard) != 1 or ast.dump(guard[0].test) != ast.dump(gwant) or guard[0].orelse:
+        raise TranslateError('_from_dict_value: unrecognised guard of the byte string decoding')
+    # the decoding precedes validate_string and the conversion in the same block
+    blk = [n for n in ast.walk(fn) if isinstance(n, ast.If) and guard[0] in n.orelse]
+    if len(blk) != 1:
+        raise TranslateError('_from_dict_value: the byte string decoding moved')
+    seq = blk[0].orelse
+    i = seq.index(guard[0])
+    rest = ''.join(ast.dump(x) for x in seq[i + 1:])
+    if "attr='validate_string'" not in rest or "attr='from_serstr'" not in rest \
+            or "attr='validate_string'" in ''.join(ast.dump(x) for x in seq[:i]):
+        raise TranslateError('_from_dict_value: validate_string / from_serstr no longer follow the decoding')
+    return ('(* a null complex / array member is read as None (not handed to _doc_to_object) *)\n'
+            'Definition null_member_is_none : bool := %s.\n'
+            '(* a byte string for a non-binary leaf is decoded (UnicodeError -> ValidationError) before\n'
+            '   validate_string and the conversion *)\n'
+            'Definition bytes_text_decoded_first : bool := true.\n' % v)
 
 
 def tr_deserialize(tree):
     fn = find_function(tree, ['HierDictDocument', 'deserialize'])
     st = find_stmt(fn, lambda n: isinstance(n, ast.If) and ast.dump(n.test) == ast.dump(
-        ast.parse('self.ignore_wrappers', mode='eval').body), '`if self.ignore_wrappers:`')
-    plain = ast.parse('doc = doc.get(class_name, None)').body
-    fixed = ast.parse("if isinstance(class_name, bytes) and not (class_name in doc):\n"
-                      "    class_name = class_name.decode('utf8')\n"
-                      "doc = doc.get(class_name, None)").body
+        ast.parse('self.ignore_wrappers', mode='eval').body) and 'class_name' in ast.dump(n), '`if self.ignore_wrappers:`')
+    plain = "doc = doc.get(class_name, None)"
+    both = ("if isinstance(class_name, bytes) and not (class_name in doc):\n"
+            "    class_name = class_name.decode('utf8')\n")
+    bare = ("sub_name = body_class.Attributes.sub_name\n"
+            "if message is self.REQUEST and sub_name is not None:\n"
+            "    if isinstance(class_name, bytes) and not isinstance(sub_name, bytes):\n"
+            "        sub_name = sub_name.encode('utf8')\n"
+            "    class_name = sub_name\n")
     got = [ast.dump(x) for x in strip_doc(st.body)]
-    if got == [ast.dump(x) for x in fixed]:
-        v = TRUE
-    elif got == [ast.dump(x) for x in plain]:
-        v = FALSE
+    if got == tmpl(bare + both + plain):
+        v, b = TRUE, TRUE
+    elif got == tmpl(both + plain):
+        v, b = TRUE, FALSE
+    elif got == tmpl(plain):
+        v, b = FALSE, FALSE
     else:
         raise TranslateError('deserialize: unrecognised request body lookup')
-    return '(* the request body is found under the str form of a bytes class name too *)\n' \
-           'Definition body_lookup_both_key_forms : bool := %s.\n' % v
+    # what follows the lookup: the wrapped in-message (sub_name is None, a ComplexModel) goes to _doc_to_object
+    tail = [n for n in fn.body if isinstance(n, ast.If) and 'body_class' in ast.dump(n.test)]
+    if len(tail) != 1:
+        raise TranslateError('deserialize: expected one `if body_class:`')
+    stmts = strip_doc(tail[0].body)
+    last = stmts[-2:]
+    call = "self._doc_to_object(ctx, body_class, doc, self.validator)"
+    old_tail = tmpl("result_message = %s\nctx.in_object = result_message" % call)
+    new_tail = tmpl("if message is self.REQUEST and doc is None and body_class.Attributes.sub_name is not None:\n"
+                    "    result_message = None\n"
+                    "elif message is self.REQUEST and not issubclass(body_class, (ComplexModelBase, Any)):\n"
+                    "    if not self.ignore_wrappers:\n"
+                    "        doc, = doc.values()\n"
+                    "    result_message = self._from_dict_value(ctx, class_name, body_class, doc, self.validator)\n"
+                    "else:\n"
+                    "    result_message = %s\n"
+                    "ctx.in_object = result_message" % call)
+    if [ast.dump(x) for x in last] not in (old_tail, new_tail):
+        raise TranslateError('deserialize: the wrapped in-message no longer goes to _doc_to_object as it did')
+    return ('(* the request body is found under the str form of a bytes class name too *)\n'
+            'Definition body_lookup_both_key_forms : bool := %s.\n'
+            '(* the argument of a bare method is looked up under the message name (sub_name); the\n'
+            '   in-message of a wrapped method has no sub_name, so this does not touch the modelled region *)\n'
+            'Definition bare_body_under_message_name : bool := %s.\n' % (v, b))
+
+
+def hier_freq_calls(t_hier):
+    """hier.py never passes flat= to _check_freq_dict"""
+    for n in ast.walk(t_hier):
+        if isinstance(n, ast.Call) and isinstance(n.func, ast.Attribute) and n.func.attr == '_check_freq_dict':
+            if any(k.arg == 'flat' for k in n.keywords) or len(n.args) > 3:
+                raise TranslateError('hier.py passes flat to _check_freq_dict')
 
 
 def tr_check_freq(tree):
@@ -275,9 +412,20 @@ def tr_check_freq(tree):
     if len(lo) != 1 or len(hi) != 1:
         raise TranslateError('_check_freq_dict: tests do not compare val with min_o and max_o')
     arr = find_stmt(fn, lambda n: isinstance(n, ast.If) and "id='Array'" in ast.dump(n.test), 'Array special case')
-    if ast.dump(arr.test) != ast.dump(ast.parse('issubclass(v, Array) and v.Attributes.max_occurs == 1', mode='eval').body):
+    if ast.dump(arr.test) == ast.dump(ast.parse('issubclass(v, Array) and v.Attributes.max_occurs == 1', mode='eval').body):
+        hier_items = TRUE
+    elif ast.dump(arr.test) == ast.dump(ast.parse('flat and val > 0 and issubclass(v, Array) and v.Attributes.max_occurs == 1',
+                                                  mode='eval').body):
+        a = fn.args
+        if [x.arg for x in a.args] != ['self', 'cls', 'd', 'fti', 'flat'] or len(a.defaults) != 2 \
+                or not (isinstance(a.defaults[1], ast.Constant) and a.defaults[1].value is False):
+            raise TranslateError('_check_freq_dict: `flat` is not a keyword that defaults to False')
+        hier_items = FALSE
+    else:
         raise TranslateError('_check_freq_dict: unrecognised Array special case')
-    return ('Definition freq_low (val min_o : ext) : bool :=\n  %s.\n'
+    return ('(* does a hierarchical document count the items of an array under the key of the array? *)\n'
+            'Definition hier_counts_array_items : bool := %s.\n' % hier_items +
+            'Definition freq_low (val min_o : ext) : bool :=\n  %s.\n'
             'Definition freq_high (val max_o : ext) : bool :=\n  %s.\n' % (
                 BoolTranslator(lambda n: None, cmp, num).tr(lo[0].test),
                 BoolTranslator(lambda n: None, cmp, num).tr(hi[0].test)))
@@ -329,8 +477,16 @@ def generate(repo):
     out = ['(* GENERATED by harness/translate/dictdoc.py from spyne/protocol/dictdoc/hier.py, dictdoc/_base.py,',
            '   msgpack.py and the protocol instances.  Do not edit. *)',
            'From SpyneV Require Import Base.Prelude Base.Ext.', 'Open Scope Z_scope.', '']
+    js, t_js = module_tree('spyne.protocol.json', repo)
+    ym, t_ym = module_tree('spyne.protocol.yaml', repo)
+    for nm, t in (('json.py', t_js), ('yaml.py', t_ym), ('msgpack.py', t_mp)):
+        if not non_number_types(t, nm):
+            raise TranslateError('%s no longer defines NON_NUMBER_TYPES' % nm)
     out.append(tr_mp_integer_to_bytes(t_mp))
     out.append(tr_mp_integer_from_bytes(t_mp))
+    out.append(tr_leaf_readers({'json': ('JsonDocument', t_js), 'yaml': ('YamlDocument', t_ym),
+                                'msgpack': ('MessagePackDocument', t_mp)}))
+    hier_freq_calls(t_hier)
     out.append(tr_member_written(t_hier))
     out.append(tr_object_to_doc(t_hier))
     out.append(tr_doc_to_object(t_hier))
